@@ -342,9 +342,9 @@ def load_sess_corpus():
 class Scen:
     """Builds one scenario line and what the generator knows about it."""
 
-    def __init__(self, rng, seed, chunk, jitter):
+    def __init__(self, rng, seed, chunk, jitter, tcp=False):
         self.rng = rng
-        self.head = f"net seed={seed} chunk={chunk} jitter={jitter}"
+        self.head = f"net seed={seed} chunk={chunk} jitter={jitter}" + (" tcp=1" if tcp else "")
         self.ops = []
         self.nprobe = 0
         self.alive = set()
@@ -462,10 +462,47 @@ def traffic(s, n, fault_free=True):
                 s.op(f"leave {i} {gkey(rng)}")
 
 
+def traffic_tcp(s, n):
+    """fault-free traffic whose completion can be awaited logically (real TCP, real time)"""
+    rng = s.rng
+    for _ in range(n):
+        r = rng.random()
+        tgts = sorted(s.known & s.alive)
+        if r < 0.45:
+            s.cast(rng.randrange(4), rng.choice([0, 1]), rng.choice(tgts), blob_len(rng))
+        elif r < 0.8:
+            mode = rng.choice([0, 0, 1, 2])
+            s.call(rng.randrange(4), rng.choice([0, 1]), rng.choice(tgts), mode, rng.choice([1, 3]) if mode == 1 else 0, 0,
+                   rng.choice([0, 8, 200]))
+        elif r < 0.86:
+            s.spawn()
+            s.settle()
+        elif r < 0.94:
+            s.op(f"join {rng.choice(sorted(s.alive))} {gkey(rng)}")
+        elif r < 0.97:
+            s.op(f"leave {rng.choice(sorted(s.alive))} {gkey(rng)}")
+        else:
+            s.settle()
+
+
 def gen_net_case(rng, kind):
     seed = rng.randrange(1, 2 ** 32)
     chunk = rng.choice([0, 0, 1, 3, 7, 64, 1000])
     jitter = rng.choice([0, 1, 1])
+    if kind == "tcp":
+        # the nodes are connected through node B's real TCP listener and client_connect
+        s = Scen(rng, seed, 0, 0, tcp=True)
+        for _ in range(rng.choice([1, 2, 3])):
+            i = s.spawn()
+            for _ in range(rng.choice([0, 1, 2])):
+                s.op(f"join {i} {gkey(rng)}")
+        s.connect()
+        s.settle()
+        s.obs()
+        traffic_tcp(s, rng.choice([5, 20, 50]))
+        s.settle()
+        s.obs()
+        return s
     s = Scen(rng, seed, chunk, jitter)
     for _ in range(rng.choice([1, 2, 3])):
         i = s.spawn()
@@ -476,7 +513,17 @@ def gen_net_case(rng, kind):
     s.connect()
     s.settle()
     s.obs()
-    if kind == "slowstart":
+    if kind == "longlived":
+        # long enough (virtual time) for the sessions' ping / pong frames to interleave with the traffic
+        for _ in range(rng.choice([2, 3])):
+            traffic(s, rng.choice([5, 15]))
+            s.settle()
+            s.op(f"advance {rng.choice([2500, 6000])}")
+        s.settle()
+        s.op("advance 300")
+        s.settle()
+        s.obs()
+    elif kind == "slowstart":
         # an advertised actor that is still in pre_start (Starting) when the first messages for it arrive
         for _ in range(rng.choice([1, 2])):
             i = s.nprobe
@@ -780,6 +827,11 @@ def run(chk):
         s = gen_net_case(rng, kind)
         ncases.append({"kind": kind, "line": s.line(), "strict": s.strict, "expect": sorted(s.expect),
                        "quiescent": s.quiescent})
+    for i in range((6 if quick else 60) * factor):
+        for kind in ("tcp", "longlived"):
+            s = gen_net_case(rng, kind)
+            ncases.append({"kind": kind, "line": s.line(), "strict": s.strict, "expect": sorted(s.expect),
+                           "quiescent": s.quiescent})
     for c in load_corpus():
         ncases.insert(0, c)
     for line, nq1, nq2 in gen_cut_sweep(rng, quick):
